@@ -1,7 +1,9 @@
 """C03 — generated model loaders/dumpers honour the configured outer layout exactly (translation validation)."""
 from __future__ import annotations
 
-from ..core import CheckResult, Repo
+import ast
+
+from ..core import AnalysisError, CheckResult, Finding, Repo, norm
 from .. import genprog
 
 LEVEL = "translation_validation"
@@ -28,4 +30,53 @@ def run(repo: Repo, tier: str, res: CheckResult, seed: int = 0) -> None:
     res.count("TV.loader-programs", n1, 300)
     res.count("TV.dumper-programs", n2, 200)
     genprog.c03_layout_checks(repo, tier, res, seed)
+    overlay_ancestors(repo, res)
     res.assumptions = list(ASSUMPTIONS)
+
+
+def overlay_ancestors(repo: Repo, res: CheckResult) -> None:
+    """name_mapping bound to a class applies to its subclasses: provide_schema stacks the overlays of the ancestors. The
+    loop that asks for the ancestors' overlays has to walk the whole MRO -- `__bases__` alone loses what is bound to a
+    grandparent or to the base of a mixin (map entries: renames, nested paths, skips fall back to the generated key)."""
+    m = repo.mod("provider/overlay_schema")
+    fn = next((n for n in m.tree.body if isinstance(n, ast.FunctionDef) and n.name == "provide_schema"), None)
+    if fn is None:
+        raise AnalysisError("anchor vanished: provider/overlay_schema.provide_schema")
+    loops = [lp for lp in ast.walk(fn) if isinstance(lp, ast.For) and any(
+        isinstance(c, ast.Call) and isinstance(c.func, ast.Attribute) and c.func.attr in ("delegating_provide", "provide", "mandatory_provide")
+        and any("OverlayRequest" in norm(a) for a in c.args) for c in ast.walk(lp))]
+    if len(loops) != 1:
+        raise AnalysisError(f"provide_schema: expected one loop over the ancestors, found {len(loops)}")
+    lp = loops[0]
+    res.evaluated("overlay:ancestor-traversal", True)
+    it = lp.iter
+    problem = None
+    while True:
+        if isinstance(it, ast.Subscript):
+            sl = it.slice
+            if not (isinstance(sl, ast.Slice) and sl.upper is None and sl.step is None
+                    and (sl.lower is None or (isinstance(sl.lower, ast.Constant) and sl.lower.value in (0, 1)))):
+                problem = f"the ancestors are cut by `[{norm(sl)}]`"
+                break
+            it = it.value
+        elif isinstance(it, ast.Call) and norm(it.func) in ("reversed", "tuple", "list", "iter") and len(it.args) == 1:
+            it = it.args[0]
+        else:
+            break
+    if problem is None:
+        if isinstance(it, ast.Call) and isinstance(it.func, ast.Attribute) and it.func.attr == "mro" and not it.args:
+            pass
+        elif isinstance(it, ast.Attribute) and it.attr == "__mro__":
+            pass
+        elif isinstance(it, ast.Call) and norm(it.func) in ("getmro", "inspect.getmro"):
+            pass
+        elif isinstance(it, ast.Attribute) and it.attr in ("__bases__", "__orig_bases__", "__base__"):
+            recursive = any(isinstance(c, ast.Call) and norm(c.func) == fn.name for c in ast.walk(lp))
+            if not recursive:
+                problem = f"only the direct bases (`{norm(it)}`) are asked and the loop does not recurse"
+        else:
+            raise AnalysisError(f"provide_schema: cannot classify the ancestor iteration `{norm(lp.iter)}`")
+    if problem:
+        res.add(Finding("C03", "OVERLAY.ancestors-not-transitive", m.rel, "provide_schema", norm(lp.iter),
+                        f"{problem}: a name_mapping (map / skip / nested path) bound to a grandparent class or to the base of a "
+                        "mixin no longer reaches the model, loader and dumper silently use the generated keys", lp.lineno))
